@@ -25,7 +25,6 @@ class Sgp4(AnalyticalPropagator):
             orbit (Orbit)
         """
 
-        self._orbit = orbit
         tle = Tle.from_orbit(orbit)
         lines = tle.text.splitlines()
 
@@ -34,7 +33,9 @@ class Sgp4(AnalyticalPropagator):
         else:
             line1, line2 = lines
 
+        # Only now that the orbit is known to be usable: a refused orbit leaves the propagator as it was
         self.tle = twoline2rv(line1, line2, wgs72)
+        self._orbit = orbit
 
     def propagate(self, date):
         """Propagate the initialized orbit
